@@ -9,6 +9,7 @@ import (
 	"io"
 	"net"
 	"runtime"
+	"sort"
 	"strings"
 	"sync"
 	"sync/atomic"
@@ -104,6 +105,77 @@ func (r *c16Race) wait() bool {
 		return r.timeout.Load() == 0
 	case <-time.After(20 * time.Second):
 		return false
+	}
+}
+
+// c16Deadlocked decides "hang" logically (DESIGN 2.5b): it takes three goroutine dumps
+// 100 ms apart and looks at the goroutines created since snap whose stack contains one of
+// the markers (= this trial's closers and operations inside the component). If they are
+// the same goroutines, none running or runnable, in the same state and innermost frame
+// every time, and at least one of them is parked in a mutex Lock, no progress is possible
+// any more: the harness itself is only waiting and feeds nothing.
+func c16Deadlocked(snap vk.LeakSnapshot, markers []string) (stacks []string, dead bool) {
+	var prev []string
+	for round := 0; round < 3; round++ {
+		if round > 0 {
+			time.Sleep(100 * time.Millisecond)
+		}
+		var cur []string
+		stacks = stacks[:0]
+		inLock := false
+		for _, g := range vk.Goroutines() {
+			if _, old := snap[g.ID]; old {
+				continue
+			}
+			involved := false
+			for _, m := range markers {
+				if strings.Contains(g.Stack, m) {
+					involved = true
+				}
+			}
+			if !involved {
+				continue
+			}
+			if strings.HasPrefix(g.State, "running") || strings.HasPrefix(g.State, "runnable") {
+				return nil, false
+			}
+			if strings.Contains(g.Stack, "sync.(*Mutex).Lock") || strings.Contains(g.Stack, "sync.(*RWMutex).") {
+				inLock = true
+			}
+			cur = append(cur, g.ID+"|"+strings.SplitN(g.State, ",", 2)[0]+"|"+g.Top)
+			st := g.Stack
+			if len(st) > 1500 {
+				st = st[:1500]
+			}
+			stacks = append(stacks, st)
+		}
+		sort.Strings(cur)
+		if len(cur) == 0 || !inLock || (round > 0 && strings.Join(cur, ";") != strings.Join(prev, ";")) {
+			return nil, false
+		}
+		prev = cur
+	}
+	return stacks, true
+}
+
+// c16WaitOrHang waits for done. Normal trials finish within microseconds; after 1 s the
+// logical hang classifier is consulted every 2 s; the 20 s cap is an inconclusive watchdog.
+func c16WaitOrHang(done <-chan struct{}, snap vk.LeakSnapshot, markers []string) (finished bool, stacks []string) {
+	wait := time.Second
+	deadline := time.Now().Add(20 * time.Second)
+	for {
+		select {
+		case <-done:
+			return true, nil
+		case <-time.After(wait):
+		}
+		if st, dead := c16Deadlocked(snap, markers); dead {
+			return false, st
+		}
+		if time.Now().After(deadline) {
+			return false, nil
+		}
+		wait = 2 * time.Second
 	}
 }
 
@@ -242,9 +314,9 @@ func TestVerifC16Stream(t *testing.T) {
 	readOps := []string{"ReadPacket", "ReadExact", "ReadAvailable", "ReadExactZeroCopy"}
 	writeOps := []string{"WritePacket", "WritePacketCompressed", "WriteExact", "WritePacketRateLimited"}
 
-	for done := 0; done < n && run.Violations() < 20 && run.Counter("leak_violations") < 3; done += batch {
+	for done := 0; done < n && run.Violations() < 20 && run.Counter("leak_violations") < 3 && run.Counter("close_deadlocks") < 3; done += batch {
 		snap := vk.SnapshotGoroutines()
-		for b := 0; b < batch && done+b < n; b++ {
+		for b := 0; b < batch && done+b < n && run.Counter("close_deadlocks") < 3; b++ {
 			trial := done + b
 			k := ks[r.Intn(len(ks))]
 			mode := []string{"pipe", "chunked", "chunked"}[r.Intn(3)]
@@ -406,7 +478,9 @@ func TestVerifC16Stream(t *testing.T) {
 					race.release()
 				}()
 			}
-			ok := race.wait()
+			markers := []string{"tunnox-core/internal/stream.(*StreamProcessor)"}
+			ok, hung := c16WaitOrHang(race.done, snap, markers)
+			ok = ok && race.timeout.Load() == 0
 			if rs != nil && (rs.fired.Load() || ws.fired.Load()) {
 				inProgress = true // the closers were released from inside the operation's own Read/Write
 			}
@@ -421,12 +495,19 @@ func TestVerifC16Stream(t *testing.T) {
 				rs.Close()
 				ws.Close()
 			}
-			opsDone := make(chan struct{})
-			go func() { ops.Wait(); close(opsDone) }()
-			select {
-			case <-opsDone:
-			case <-time.After(20 * time.Second):
-				ok = false
+			if hung == nil && ok {
+				opsDone := make(chan struct{})
+				go func() { ops.Wait(); close(opsDone) }()
+				ok, hung = c16WaitOrHang(opsDone, snap, markers)
+			}
+			if hung != nil {
+				// Close (or an operation racing it) can never return. The goroutines of this
+				// trial are abandoned; later trials diff against a fresh snapshot.
+				run.Violation("C16:stream|close-deadlock", map[string]any{"case": desc, "parked_goroutines": len(hung), "stacks": hung})
+				run.Count("close_deadlocks", 1)
+				cancel()
+				snap = vk.SnapshotGoroutines()
+				continue
 			}
 			cancel()
 			if !ok {
